@@ -222,10 +222,19 @@
 ; substrings
 (assert (forall ((s Str) (a Int) (b Int)) (! (=> (and (<= 0 a) (<= a b) (<= b (slen s))) (= (slen (sub s a b)) (- b a))) :pattern ((sub s a b)))))
 (assert (forall ((s Str) (a Int) (b Int) (k Int)) (! (=> (and (<= 0 a) (<= a b) (<= b (slen s)) (<= 0 k) (< k (- b a))) (= (at (sub s a b) k) (at s (+ a k)))) :pattern ((at (sub s a b) k)))))
-; nlcount(s, a, b): number of newline bytes in s[a:b)  (one-step unfolding from the right)
+; nlcount(s, a, b): number of newline bytes in s[a:b).  Characterised (no recursive unfolding, to keep
+; instantiation finite) by: empty range, single byte, additivity, newline-free range, substring shift.
 (declare-fun nlcount (Str Int Int) Int)
 (assert (forall ((s Str) (a Int) (b Int)) (! (=> (<= b a) (= (nlcount s a b) 0)) :pattern ((nlcount s a b)))))
-(assert (forall ((s Str) (a Int) (b Int)) (! (=> (< a b) (= (nlcount s a b) (+ (nlcount s a (- b 1)) (ite (= (at s (- b 1)) 10) 1 0)))) :pattern ((nlcount s a b)))))
+(assert (forall ((s Str) (a Int) (b Int)) (! (=> (= b (+ a 1)) (= (nlcount s a b) (ite (= (at s a) 10) 1 0))) :pattern ((nlcount s a b)))))
 ; resource assumption: no string has 2^63-2 or more bytes
 (assert (forall ((s Str)) (! (< (slen s) (- MAXINT 1)) :pattern ((slen s)))))
 (assert (forall ((s Str)) (! (= (sub s 0 (slen s)) s) :pattern ((sub s 0 (slen s))))))
+; ghost: line number cited by an error value (-1 when the message cites none)
+(declare-fun errLine (Val) Int)
+; trusted lemmas about nlcount (induction over the right bound): additivity and substring shift
+(assert (forall ((s Str) (a Int) (b Int) (c Int)) (! (=> (and (<= a b) (<= b c)) (= (nlcount s a c) (+ (nlcount s a b) (nlcount s b c)))) :pattern ((nlcount s a b) (nlcount s b c)))))
+(assert (forall ((s Str) (i Int) (n Int) (k Int)) (! (=> (and (<= 0 i) (<= i n) (<= n (slen s)) (<= 0 k) (<= k (- n i))) (= (nlcount (sub s i n) 0 k) (nlcount s i (+ i k)))) :pattern ((nlcount (sub s i n) 0 k)))))
+(assert (forall ((s Str) (a Int) (b Int)) (! (and (<= 0 (nlcount s a b)) (=> (<= a b) (<= (nlcount s a b) (- b a)))) :pattern ((nlcount s a b)))))
+(assert (forall ((s Str) (a Int) (b Int)) (! (=> (forall ((k Int)) (! (=> (and (<= a k) (< k b)) (not (= (at s k) 10))) :pattern ((at s k)))) (= (nlcount s a b) 0)) :pattern ((nlcount s a b)))))
+(assert (forall ((s Str) (a Int) (b Int) (c Int)) (! (=> (and (<= a b) (<= b c)) (= (nlcount s a c) (+ (nlcount s a b) (nlcount s b c)))) :pattern ((nlcount s a b) (nlcount s a c)))))
